@@ -278,7 +278,8 @@ class StmtMixin:
     def feasible(self, st: State):
         if not getattr(self, "prune", True):
             return True
-        r, _ = smt.check_sat(st.pc, timeout_ms=300)
+        with smt.side_query():
+            r, _ = smt.check_sat(st.pc, timeout_ms=300)
         return r != "unsat"
 
     def ex_Return(self, s, st):
